@@ -53,8 +53,16 @@ def main():
         with open(os.path.join(d, "meta.json"), "w") as f:
             json.dump(meta, f, indent=1)
         best = results.get("quick", {}).get("caught_by", [])
-        rows.append((sid, ", ".join(files)[:60], title[:90], ",".join(best) or "**missed**"))
-    print("| seed | files | change | caught by (quick) |")
+        status = open(os.path.join(d, "status.txt")).read().strip() if os.path.exists(os.path.join(d, "status.txt")) else ""
+        if status:
+            meta["status"] = status
+        if os.path.exists(os.path.join(d, "patch_rebased.diff")):
+            meta["patch_rebased"] = "patch_rebased.diff is patch.diff carried over a later fix: commit that touched the same lines; evaluation uses it"
+        with open(os.path.join(d, "meta.json"), "w") as f:
+            json.dump(meta, f, indent=1)
+        shown = ",".join(best) or ("n/a (neutralised, see status.txt)" if status else "**missed**")
+        rows.append((sid, ", ".join(os.path.basename(x) for x in files)[:44], title[:110].replace("|", "/"), shown))
+    print("| seed | files | change | caught by (quick tier; evaluation stops at the first check that reports) |")
     print("|------|-------|--------|-------------------|")
     for r in rows:
         print("| %s | %s | %s | %s |" % r)
